@@ -327,6 +327,26 @@ def check_slices(templates, rng, rec, case, tag):
             rec.violation(f'{key}-{tag}', f'table of shape {shape} sliced '
                           f'with {index}: read {got[:3]}..., expected '
                           f'{want[:3]}... {warn[:100]}', case)
+        # integer indices (first, last, one in between) of 1-d tables
+        if len(shape) == 1:
+            for pos in {0, -1, rng.randrange(shape[0])}:
+                try:
+                    text = render([tab[pos]])
+                except Exception as err:  # pylint: disable=broad-except
+                    rec.violation(f'indexing-raised-{type(err).__name__}-'
+                                  f'{tag}', f'table of {shape[0]} rows '
+                                  f'[{pos}]: {err!r}', case)
+                    continue
+                doc, _ = rstback.parse(text)
+                rec.count('slices_checked')
+                got = rstback.tables(doc)[0]['rows'] if doc is not None \
+                    and rstback.tables(doc) else []
+                got = [[(norm(t), h) for t, h in row] for row in got]
+                want = [[(norm(t), h) for t, h in full[pos]]]
+                if got != want:
+                    rec.violation(f'rows-wrong-after-slicing-{tag}',
+                                  f'table of {shape[0]} rows indexed with '
+                                  f'{pos}: read {got}, expected {want}', case)
         # join: two slices put together again
         if len(shape) == 1 and shape[0] >= 2:
             cut = rng.randint(1, shape[0] - 1)
